@@ -64,6 +64,64 @@ class NpProxy:
     return _np.clip(x, lo, hi, *a, **kw)
 
 
+  # -- short vectors of Python scalars combined with a symbolic value (nearest-feasible-value snap) --------------------
+  def asarray(self, x, *a, **kw):
+    if _tracing() and isinstance(x, (list, tuple)) and len(x) <= 16 and all(isinstance(e, (int, float)) for e in x):
+      return _Vec(x)
+    return _np.asarray(x, *a, **kw)
+
+  def argmin(self, x, *a, **kw):
+    if isinstance(x, _Vec):
+      best = 0
+      for i in range(1, len(x)):
+        if x[i] < x[best]:
+          best = i
+      return best
+    return _np.argmin(x, *a, **kw)
+
+  def where(self, cond, x=None, y=None, *a, **kw):
+    if x is not None and y is not None and not a and not kw and (
+        isinstance(cond, bool) or _sym(cond)) and (_sym(x) or _sym(y) or isinstance(x, (int, float))):
+      return x if cond else y
+    return _np.where(cond, x, y, *a, **kw) if x is not None else _np.where(cond)
+
+  def float64(self, x=0.0):
+    if _sym(x):
+      return x
+    return _np.float64(x)
+
+
+def _tracing():
+  try:
+    from crosshair.tracers import is_tracing
+    return is_tracing()
+  except Exception:  # noqa
+    return False
+
+
+class _Vec(list):
+  """Element-wise arithmetic for np.asarray(short list) - scalar, and np.abs of it."""
+
+  def __sub__(self, other):
+    return _Vec([e - other for e in self])
+
+  def __rsub__(self, other):
+    return _Vec([other - e for e in self])
+
+  def __abs__(self):
+    return _Vec([(-e if e < 0 else e) for e in self])
+
+
+_NpProxy_abs = NpProxy.abs
+
+
+def _abs(self, x, *a, **kw):
+  if isinstance(x, _Vec):
+    return abs(x)
+  return _NpProxy_abs(self, x, *a, **kw)
+
+
+NpProxy.abs = _abs
 PROXY = NpProxy()
 
 
